@@ -1136,6 +1136,31 @@ def r_guard(f):
                     mentions = any(x == ("param", 2) for x in walk(e))
                     if mentions and ((e[0] == "call" and re.search(r"(saturating_sub|wrapping_sub|checked_sub|min|abs_diff)$", str(e[1]))) or (e[0] == "bin" and str(e[1]).startswith(("Sub", "Div", "Shr", "BitAnd", "Rem")))):
                         less = (t_["span"], show(e))
+            # .. and the reservation either succeeds or panics: insert_row / insert_col write behind the old length right after it.
+            # A fallible `try_reserve*` whose failure is dropped (`let _ = ..`, `.ok()`) turns "capacity overflow" into a silent no-op
+            hard = [bi for bi, t_, fn_ in b.calls() if fn_ and fn_["name"] in ("reserve", "reserve_exact") and "alloc::vec::Vec" in (fn_.get("path") or "")]
+            soft = [(bi, t_) for bi, t_, fn_ in b.calls() if fn_ and fn_["name"] in ("try_reserve", "try_reserve_exact") and "alloc::vec::Vec" in (fn_.get("path") or "")]
+            domr = b.dominators()
+            rets_ = [rb for rb, bl in enumerate(b.blocks) if bl["term"] and bl["term"]["k"] == "return" and not bl["cleanup"] and rb in b.reachable(0)]
+            g_ = G(b, f)
+            # the Ok edges of try_reserve results whose Err edge can only panic (`.expect(..)`, `match .. { Err(_) => panic!() }`)
+            ok_edges = [t_["target"] for bi, t_, fn_ in b.calls() if fn_ and fn_["name"] in ("unwrap", "expect") and (fn_.get("path") or "").startswith("core::result::") and t_.get("target") is not None
+                        and any(isinstance(x, tuple) and x[0] == "call" and x[2] in ("try_reserve", "try_reserve_exact") for x in walk(d.expr(t_["args"][0])))]
+            for sb_, bl_ in enumerate(b.blocks):
+                tt_ = bl_["term"]
+                if tt_ and tt_["k"] == "switch" and not bl_["cleanup"]:
+                    e_ = strip(d.expr(tt_["discr"]))
+                    if e_[0] == "discr" and any(isinstance(x, tuple) and x[0] == "call" and x[2] in ("try_reserve", "try_reserve_exact") for x in walk(e_)):
+                        tm_ = dict((int(a_), b2) for a_, b2 in tt_["targets"])
+                        err_t, ok_t = tm_.get(1, tt_["otherwise"]), tm_.get(0)
+                        if ok_t is not None and err_t is not None and g_.diverges(err_t) and not g_.diverges(ok_t):
+                            ok_edges.append(ok_t)
+            points = hard + ok_edges
+            guaranteed = bool(points) and all(any(p_ == rb or p_ in domr.get(rb, set()) for p_ in points) or _all_paths_pass(b, points, rb) for rb in rets_)
+            if soft or not hard:
+                RA.inst(b.ident, "every normal return has the room reserved (a panicking Vec::reserve*, or a try_reserve* whose failure panics)", guaranteed)
+                if not guaranteed:
+                    RA.fail(b.ident, "capacity:fallible-ignored", "%s can return normally without the room having been reserved (%s): insert_row / insert_col lower the length and write the new line behind the old cells right after this call, i.e. past the allocation" % (b.ident, "the Result of Vec::try_reserve* is dropped" if soft else "no reserving call on some path"), b.where(soft[0][1]["span"]) if soft else b.where())
             RA.inst(b.ident, "the caller's count reaches Vec::%s undiminished" % b.name, less is None)
             if less:
                 RA.fail(b.ident, "capacity:reduced", "%s hands Vec::%s a count that is smaller than the one asked for (%s): Vec::reserve is already relative to the length, so with some spare capacity the buffer is not grown enough and insert_row / insert_col write the new line past the allocation" % (b.ident, b.name, less[1][:120]), b.where(less[0]))
